@@ -50,6 +50,7 @@ def run(repo, rep, tier):
     _decode(repo, rep)
     _loop(repo, rep)
     _dollar(repo, rep)
+    marker_on_text(repo, rep)
     L.state_rule(repo, rep)
 
 
@@ -295,11 +296,13 @@ def _decode(repo, rep):
                 ok = False
     vt = L.emission(repo, PROG + "visit_text").value
     for w in A.walk(vt):
-        if isinstance(w, A.NodeV) and w.kind == "Interpolation" and \
-                "decode_htmlentities" in w.kwargs:
-            t = A.show(w.kwargs["decode_htmlentities"]).strip("`")
+        if isinstance(w, A.NodeV) and w.kind == "Interpolation":
+            # (text mode shares this visitor: there "&...;" is no entity;
+            # the node class default is 'on', so the flag has to be passed)
+            t = A.show(w.kwargs["decode_htmlentities"]).strip("`") \
+                if "decode_htmlentities" in w.kwargs else "<default>"
             if t.replace(" ", "") not in ("bool(self.escape)", "self.escape"):
-                ok = False      # element text must decode whenever it escapes
+                ok = False      # element text decodes exactly when it escapes
     at = L.emission(repo, PROG + "_create_attributes_nodes").value
     for w in A.walk(at):
         if isinstance(w, A.NodeV) and w.kind == "Interpolation" and \
@@ -674,6 +677,31 @@ def _loop(repo, rep, rule="R06.4"):
     rep.check("ast.Constant('%s' * len(nodes))" in t, rule, site,
               "parts are concatenated in source order",
               construct="concat", where=wh)
+
+
+def marker_on_text(repo, rep, rule="R06.5"):
+    """Whether a text / comment / CDATA node holds an interpolation is
+    decided by looking for '${' in the text of the node itself.  On an
+    edited copy (escapes removed first, ...) '$$${x}' -- an escaped dollar
+    followed by a live ${x} -- reads as static text."""
+    for name in ("visit_text", "visit_comment", "visit_cdata"):
+        f = repo.func(PROG + name)
+        prm = f.node.args.args[1].arg
+        tests = [n for n in ast.walk(f.node) if isinstance(n, ast.Compare)
+                 and len(n.ops) == 1
+                 and isinstance(n.ops[0], (ast.In, ast.NotIn))
+                 and isinstance(n.left, ast.Constant)
+                 and n.left.value == "${"]
+        bad = []
+        for t_ in tests:
+            subj = L.inline_locals(f.node, t_.comparators[0])
+            if not (isinstance(subj, ast.Name) and subj.id == prm):
+                bad.append(src(t_))
+        rep.check(bool(tests) and not bad, rule, f.qualname, "the marker "
+                  "test that decides on interpolation looks at the node's "
+                  "text as written", construct="marker-on-text:" + name,
+                  where=L.where(f, tests[0].lineno if tests else None),
+                  detail="; ".join(bad)[:120])
 
 
 def _dollar(repo, rep):
